@@ -24,8 +24,14 @@ NAME_MV = re.compile(r'^_[A-Z][A-Z0-9]*$')
 EXPR_MV = re.compile(r'^__[A-Z][A-Z0-9]*$')
 
 
-@lru_cache(maxsize=4096)
 def _parse(src: str):
+    from . import normal
+
+    return _parse_v(src, normal.SIGS_VERSION)
+
+
+@lru_cache(maxsize=4096)
+def _parse_v(src: str, sigs_version: str):
     src = src.strip('\n')
     import textwrap
 
@@ -162,12 +168,19 @@ def _pure(e: ast.AST) -> bool:
     return True
 
 
+def _trivial(v: ast.AST) -> bool:
+    return isinstance(v, ast.Constant) or (isinstance(v, (ast.List, ast.Tuple)) and not v.elts) or (isinstance(v, ast.Dict) and not v.keys) \
+        or (isinstance(v, ast.Call) and isinstance(v.func, ast.Name) and v.func.id in ('set', 'list', 'dict') and not v.args and not v.keywords)
+
+
 def _independent(a: ast.stmt, b: ast.stmt) -> bool:
     """two plain assignments to different locals with pure right-hand sides, neither reading the other's target:
     their order is not behaviour"""
     for st in (a, b):
-        if not (isinstance(st, ast.Assign) and len(st.targets) == 1 and isinstance(st.targets[0], ast.Name) and _pure(st.value)):
+        if not (isinstance(st, ast.Assign) and len(st.targets) == 1 and isinstance(st.targets[0], ast.Name)):
             return False
+    if not (_pure(a.value) and _pure(b.value)) and not (_trivial(a.value) or _trivial(b.value)):
+        return False  # (an initialisation with a constant or an empty container commutes with anything)
     ta, tb = a.targets[0].id, b.targets[0].id
     ra = {n.id for n in ast.walk(a.value) if isinstance(n, ast.Name)}
     rb = {n.id for n in ast.walk(b.value) if isinstance(n, ast.Name)}
@@ -354,6 +367,15 @@ def body_is(stmts: list[ast.stmt], pattern: str, bindings: dict | None = None) -
     if m_stmts(_parse(pattern), stmts, b, anchored=True):
         return b
     return None
+
+
+def expr_is(node: ast.AST, pattern: str, bindings: dict | None = None) -> dict | None:
+    """the expression node itself (temporaries looked through) matches the expression pattern"""
+    ps = _parse(pattern)
+    assert len(ps) == 1 and isinstance(ps[0], ast.Expr), pattern
+    b = dict(bindings or {})
+    b.pop('__virtual__', None)
+    return b if m_node(ps[0].value, node, b) else None
 
 
 def bound(b: dict, key: str) -> str:
